@@ -582,10 +582,12 @@ def api_task(ctx, task):
                 if any(t > s for t in ts):       # (a row may refer to itself)
                     ok = False
         # an unset identifying value cannot be expressed through new() (it would become the type's default)
+        # (round 12, C03-23: it is there to be cloned, though -- the clone route takes these populations too)
+        unset_identifying = False
         for a in schema.assocs:
             for kind, values in rows:
                 if kind == a.tgt and any(values.get(k, ABSENT) == ABSENT for k in a.tkeys):
-                    ok = False
+                    unset_identifying = True
         # an identifying attribute that is itself referential holds a value only through a link: a dangling value of it
         # cannot be expressed through new() / is not there to be cloned
         types = dict((k, dict(a)) for k, a in schema.classes)
@@ -605,6 +607,10 @@ def api_task(ctx, task):
         case = dict(kind='api', schema=si, rows=rows)
         want = ref.observe()
         for route in ('new', 'clone'):
+            if unset_identifying:
+                if route == 'new':
+                    continue
+                ctx.count('api_clones_of_rows_with_unset_identifying_values')
             ctx.count('loads')
             try:
                 m = relmodel.build_real(xtuml, schema)
